@@ -127,6 +127,10 @@ class ExcludedCellsTagger(TaggerWithInternalState):
             The global state in-state identifiers.
         """
         for active_cell, active_identifier in self._internal_state.yield_active_cells():
+            # The nearby cells are stored in a set whose iteration order depends on memory addresses. Iterate in the
+            # order of the cell identifiers so that the order in which the event handlers are started (and consume
+            # random numbers) is reproducible across processes and after a dumped run is resumed.
             yield from ((active_identifier, occupant_identifier)
-                        for nearby_cell in self._internal_state.cells.nearby_cells(active_cell)
+                        for nearby_cell in sorted(self._internal_state.cells.nearby_cells(active_cell),
+                                                  key=lambda cell: cell.identifier)
                         for occupant_identifier in self._internal_state[nearby_cell])
